@@ -177,9 +177,15 @@ func (c *MemoryCache[MetadataT]) cacheInternal(key CacheKey, data io.Reader, exp
 	}
 
 	c.mu.Lock()
+	replaced, existed := c.entries[key]
 	c.entries[key] = internalEntry
 	c.mu.Unlock()
 
+	if existed {
+		// Overwrite of an existing key: the replaced entry no longer counts
+		decrementCacheEntries()
+		decrementCacheSize(&c.byteSize, replaced.meta.Size)
+	}
 	incrementCacheEntries()
 	addCacheSize(&c.byteSize, int64(count))
 
